@@ -311,6 +311,29 @@ def enum_tagged(maxn):
     return gen_
 
 
+def enum_tagged_scalars(shard, nshards):
+    """Model EU (two enums sharing a member name, two string-like classes,
+    unions of them): every scalar spelling x every tag, at the root, as a list
+    item and at each attribute."""
+    spec = portfolio.MODELS['EU']
+    tags = [''] + ['!%s ' % c['name'] for c in spec['classes']] + [
+        '!Unknown ', '!!str ', '!!bool ', '!!int ']
+    scals = ['red', 'dark', 'true', 'x', '1', '"red"', '~']
+    i = 0
+    for tg in tags:
+        for sc in scals:
+            v = tg + sc
+            docs = [v, '[%s]' % v, '[%s, dark]' % v, '{c: %s}' % v, '{c: red, s: %s}' % v,
+                    '{c: dark, o: %s}' % v, '{c: dark, t: %s}' % v,
+                    '!EH {c: %s, s: !US2 x}' % v]
+            for tg2 in tags[1:6]:
+                docs.append('{c: %s, s: %sx}' % (v, tg2))
+            for d in docs:
+                if i % nshards == shard:
+                    yield {'portfolio': 'EU', 'text': d}
+                i += 1
+
+
 def _base_phases(tier):
     quick = tier != 'thorough'
     return [
@@ -319,6 +342,11 @@ def _base_phases(tier):
                   'every mapping document of <=%d nodes over the hierarchy portfolio '
                   'models x every class tag of the model, !Unknown, !!map and no tag '
                   'on the root' % (3 if quick else 4)),
+        EnumPhase('tagged_scalars', enum_tagged_scalars,
+                  'model EU (enums Col/Shade sharing member red, string-likes US/US2, '
+                  'unions of them): 7 scalar spellings x 11 tags (none, each class, '
+                  '!Unknown, core tags) at the root, in a list and at every attribute, '
+                  'with a second tagged scalar beside it'),
     ]
 
 
